@@ -127,6 +127,136 @@ theorem minimaxAnalyze_report (env : PTN.Env) (eng : Engines E) (f : Flags) (ai 
                   · simp at hi; subst hi; trivial
                   · simp at hi
 
+/-- an `AI analysis:` block printed by the minimax analyzer shows what `AnalyzeAll` returned on the engine it was handed -/
+theorem minimaxAnalyze_analysis (env : PTN.Env) (eng : Engines E) (f : Flags) (ai : E) (p q : Pos)
+    (pvs : List (List Move)) (val : Int) (hi : Item.analysis q pvs val ∈ (minimaxAnalyze env eng f ai p).1) :
+    q = p ∧ ∃ ai', eng.analyzeAll (minimaxCfg f) ai p = .ok ((pvs, val), ai') := by
+  unfold minimaxAnalyze at hi
+  rw [mem_bind] at hi
+  rcases hi with hi | ⟨_, _, hi⟩
+  · split at hi
+    · simp at hi
+    · unfold showBoard at hi; split at hi <;> simp at hi
+  · split at hi
+    · rw [mem_bind] at hi
+      rcases hi with hi | ⟨v, _, hi⟩
+      · simp at hi
+      · rw [mem_bind] at hi
+        rcases hi with hi | ⟨_, _, hi⟩
+        · simp at hi
+        · simp at hi
+    · rw [mem_bind] at hi
+      rcases hi with hi | ⟨r, hr, hi⟩
+      · simp at hi
+      · rw [lift_ok] at hr
+        rw [mem_bind] at hi
+        rcases hi with hi | ⟨_, _, hi⟩
+        · simp at hi
+          obtain ⟨h1, h2, h3⟩ := hi
+          subst h1 h2 h3
+          exact ⟨rfl, r.2, by rw [hr]⟩
+        · rw [mem_bind] at hi
+          rcases hi with hi | ⟨_, _, hi⟩
+          · split at hi
+            · rw [mem_bind] at hi
+              rcases hi with hi | ⟨t, _, hi⟩
+              · simp at hi
+              · simp at hi
+            · simp at hi
+          · split at hi
+            · simp at hi
+            · split at hi
+              · simp at hi
+              · split at hi
+                · split at hi <;> simp at hi
+                · rw [mem_bind] at hi
+                  rcases hi with hi | ⟨_, _, hi⟩
+                  · simp at hi
+                  · simp at hi
+
+theorem showBoard_no_analysis (f : Flags) (p q : Pos) (pvs : List (List Move)) (val : Int) :
+    Item.analysis q pvs val ∉ (showBoard f p).1 := by
+  unfold showBoard; split <;> simp
+
+theorem pnAnalyze_no_analysis (eng : Engines E) (f : Flags) (p q : Pos) (pvs : List (List Move)) (val : Int) :
+    Item.analysis q pvs val ∉ (pnAnalyze eng f p).1 := by
+  intro hi
+  unfold pnAnalyze at hi
+  rw [mem_bind] at hi
+  rcases hi with hi | ⟨_, _, hi⟩
+  · exact showBoard_no_analysis f p q pvs val hi
+  · rw [mem_bind] at hi
+    rcases hi with hi | ⟨r, _, hi⟩
+    · simp at hi
+    · rw [mem_bind] at hi
+      rcases hi with hi | ⟨_, _, hi⟩
+      · simp at hi
+      · split at hi <;> simp at hi
+
+theorem dfpnAnalyze_no_analysis (eng : Engines E) (f : Flags) (p q : Pos) (pvs : List (List Move)) (val : Int) :
+    Item.analysis q pvs val ∉ (dfpnAnalyze eng f p).1 := by
+  intro hi
+  unfold dfpnAnalyze at hi
+  split at hi
+  · simp at hi
+  · rw [mem_bind] at hi
+    rcases hi with hi | ⟨_, _, hi⟩
+    · exact showBoard_no_analysis f p q pvs val hi
+    · rw [mem_bind] at hi
+      rcases hi with hi | ⟨r, _, hi⟩
+      · simp at hi
+      · simp at hi
+
+/-- without `-all`, the one `AI analysis:` block is `AnalyzeAll` on an engine newly built for the board size -/
+theorem execute_single_analysis (env : PTN.Env) (eng : Engines E) (f : Flags) (input : Bytes) (hall : f.all = false)
+    (q : Pos) (pvs : List (List Move)) (val : Int) (hi : Item.analysis q pvs val ∈ (execute env eng f input).1) :
+    ∃ ai', eng.analyzeAll (minimaxCfg f) (eng.newMinimax q.size (minimaxCfg f)) q = .ok ((pvs, val), ai') := by
+  unfold execute at hi
+  split at hi
+  · simp at hi
+  · split at hi
+    · simp at hi
+    · simp only [hall, Bool.not_false, if_true] at hi
+      split at hi
+      · simp at hi
+      · rename_i p _
+        rw [mem_bind] at hi
+        rcases hi with hi | ⟨a, ha, hi⟩
+        · unfold buildAnalysis at hi; repeat' split at hi
+          all_goals simp at hi
+        · rw [mem_bind] at hi
+          rcases hi with hi | ⟨_, _, hi⟩
+          · unfold buildAnalysis at ha
+            unfold analyzeWith at hi
+            cases a with
+            | dfpn =>
+              simp only at hi
+              rw [mem_bind] at hi
+              rcases hi with hi | ⟨_, _, hi⟩
+              · exact absurd hi (dfpnAnalyze_no_analysis eng f p q pvs val)
+              · simp at hi
+            | pn =>
+              simp only at hi
+              rw [mem_bind] at hi
+              rcases hi with hi | ⟨_, _, hi⟩
+              · exact absurd hi (pnAnalyze_no_analysis eng f p q pvs val)
+              · simp at hi
+            | mcts => simp at hi
+            | minimax ai =>
+              simp only at hi
+              rw [mem_bind] at hi
+              rcases hi with hi | ⟨_, _, hi⟩
+              · obtain ⟨hq, ai', h⟩ := minimaxAnalyze_analysis env eng f ai p q pvs val hi
+                subst hq
+                have hai : ai = eng.newMinimax q.size (minimaxCfg f) := by
+                  repeat' split at ha
+                  all_goals simp at ha
+                  exact ha.symm
+                subst hai
+                exact ⟨ai', h⟩
+              · simp at hi
+          · simp at hi
+
 /-- **every report of an analyzer is about the position it was handed** and shows what the searcher returned for it -/
 theorem analyzeWith_report (env : PTN.Env) (eng : Engines E) (f : Flags) (a : Analyzer E) (p : Pos) :
     ∀ i ∈ (analyzeWith env eng f a p).1, Report eng f p i := by
